@@ -76,10 +76,10 @@ CHECKS.update({
          "(a) The whole real pipeline (controller, reader, analysis/dispatcher, one validator per link or FEE id, statistics forwarder) runs as real OS threads under fp_sched: crossbeam_channel, flume, thread spawn/join and AtomicBool are swapped for scheduler shims (mirror packages + cfg(fastpasta_verif_sched) import swap), every channel operation, flag access, spawn, join, disconnection and thread exit is a scheduling point, every statistics send included. For 7 scenarios (check all / its / its-stave, muted and unmuted, 2-3 interleaved links with an E10+E11 pair on every RDH, JSON and TOML) every schedule with at most 1 deviation (quick; 2 thorough) is executed (quick: 1 555 schedules, 221 215 steps, 27-49 distinct arrival orders per scenario): statistics file bytes, any-errors flag and normal completion must be identical; the default schedule is replayed twice first (no uncontrolled nondeterminism). (b) Arrival-order closure: every order-preserving merge of per-validator error sequences for shapes around the standard library's unstable-sort thresholds ((2k,2) for k up to 24, (16,4), (4,4,4); more in thorough; 80 494 merges quick) through a fresh real StatsCollector (collect, finalize, serialise), muted and unmuted: one distinct output. (c) Commutation of collect over all ordered pairs of message kinds on representative states (only same-sender kinds may depend on order).",
          "One channel operation / flag access = one atomic step (crossbeam/flume are linearizable; the shim's enabledness rules are bound to the real crates by the depth-5/6 conformance run in C17). Complete only up to the deviation bound for the whole pipeline and for the listed merge shapes. Runs with an error cap or a fatal input error are excluded by the property.",
          True),
- "C17": ("sched+enum", "model_checking",
+ "C17": ("sched+tlc+enum", "model_checking",
          "controlled-scheduler exploration with the stop event (Signal pseudo-thread, error cap, fatal error) placed at every scheduling point, small worlds (queue capacity 1-2), deadlock = no enabled thread; stdout closed after every N bytes on the real CLI; shim/real channel conformance",
          "sched: the real pipeline with every bounded queue overridden to capacity 1 or 2 and batches of 2 packets; a Signal pseudo-thread (does what the ctrl-c handler does) is a lazy thread, so each 1-deviation schedule places the signal at one scheduling point of the default schedule (thorough: of every 1-deviation schedule); error cap -e N for N up to the total; a fatal framing error at every packet index; check all, check all its and filtered writing. Per execution: terminates (exact enabledness: no enabled thread while some thread is alive = deadlock; step horizon), no panic, main reaches its end with every thread joined, a filtered output file walks as whole packets and is a prefix of the expected filtered stream. Vacuity guards: a bounded queue was full in some execution, the stop flag was raised. CLI: views, filtered data, report and -S stdout with the stdout pipe shrunk to 4 KiB and closed after N bytes (every N <= 200, 1000..1050 and every 211th beyond in quick, every N in thorough): no signal, no timeout, no panic text. Conformance: all operation sequences to depth 5 (6 thorough) over 2 sender and 2 receiver handles on real crossbeam bounded(1)/bounded(2)/unbounded and flume agree with the scheduler's rules.",
-         "OS signal delivery / the ctrlc crate are outside the scheduler (the handler body is modelled). Step horizon and a 10 s wall cap stand in for 'bounded time'. The TLA+ model of the shutdown protocol planned in DESIGN.md is not built yet.",
+         "OS signal delivery / the ctrlc crate are outside the scheduler (the handler body is modelled). Step horizon and a 10 s wall cap stand in for 'bounded time'. TLA+ (models/Shutdown.tla): TLC verifies deadlock freedom, orderly end and termination for signal / error-cap / fatal-error instances over all interleavings; every implementation execution explored by the scheduler for the matching instance is projected onto the model's action labels and walked through TLC's dumped state graph (trace inclusion; model states / edges covered are reported). Model paths beyond the deviation bound are not replayed on the code.",
          True),
 })
 
